@@ -2,7 +2,7 @@
 from harness.common import Case, hx, tx_to_line, line_to_tx, Fields
 from harness import gen as G, fixtures as FX
 
-KINDS = 'ms'
+KINDS = 'gms'
 RULE = ("C01's transaction generator plus witness stacks with 0, 1, 127, 128, 252, 253 and 300 items and items of 0..70000 bytes; "
         'size and vsize compared between implementation, hand model and the Spec computed from the two wire encodings; fixture '
         'transactions (sample / all) by parse + sizes. non-trivial: segwit transaction with at least one non-empty stack')
@@ -17,7 +17,8 @@ def cases(ctx):
     names = G.op_names()
     def c(tx, tag):
         nt = tx.has_segwit and any(w.stack for w in tx.witnesses)
-        return Case(f'tx_sizes {tx_to_line(tx)}', 'ms', nontrivial=nt, tag=tag)
+        line = tx_to_line(tx)
+        return Case(f'tx_sizes {line}', 'gms' if len(line) < 20000 else 'ms', nontrivial=nt, tag=tag)
     for k in range(ctx.n(300, 10000)):
         tx = G.gen_tx(rng, names, max_in=rng.choice([3, 8, 40]), max_out=rng.choice([3, 8]), big=rng.random() < 0.05)
         ctx.count('gen-' + ('segwit' if tx.has_segwit else 'legacy'))
